@@ -519,6 +519,9 @@ class ObjectBase(EntityContainer):
             elif isinstance(child, Data):
                 self.remove_data_from_groups(child)
 
+            if child is self._visual_parameters:
+                self._visual_parameters = None
+
             self._children.remove(child)
 
         self.workspace.remove_children(self, children)
